@@ -426,6 +426,9 @@ func c16HistRecordCase(i int, raw []byte) Result {
 		for _, a := range []string{"eh", "ef"} {
 			if a == "eh" && d.Hdr == 1 || a == "ef" && d.Ftr == 1 {
 				at := rnd.Intn(len(d.Body) + 1)
+				if at == 0 && len(d.Body) > 0 && d.Body[0].K == "M" && d.Body[0].How == "tracked" {
+					at = 1 // text:tracked-changes stays the first child of office:text
+				}
 				for at < len(d.Body) && d.Body[at].K == "LI" {
 					at++ // never inside a list run (it would cut an item from its continuation paragraph)
 				}
